@@ -61,7 +61,7 @@ PROPS = {
                      "zarr refuses to create an array that already exists (the 'length' clash)"],
     ),
     "C08": dict(
-        units=["GenIcfWriter", "GenIterValues", "GenSummary"],
+        units=["GenIcfWriter", "GenIterValues", "GenSummary", "GenExplode"],
         trusted_extra=["translator/icfw2coq.py (IcfFieldWriter -> Gen/GenIcfWriter.v; the read side matched against one shape)"],
         props_files=["Props/C08.v"],
         driver="c08",
